@@ -331,6 +331,10 @@ def random_pair(ctx, case_seed):
                 d['fallback'] = ('fn', [renamed[d['name']]])
             elif fr < 0.7:
                 d['fallback'] = ['bogus']
+        if d.get('resolver') is not None and rng.random() < 0.6:
+            # an input whose alias is built from an argument AND that names fallback aliases (as a list, kept by the decorator)
+            d['fallback'] = ['never.recorded.alias']
+            ctx.count('resolver_inputs_with_a_fallback_list')
         d['run_original'] = rng.random() < 0.25
         d['substitute'] = rng.choice(SUBSTITUTES)
     for d in p2['outputs']:
